@@ -78,6 +78,9 @@ CORE: list[tuple[str, list]] = [
     # joins/gathers whose element can match empty: an iteration that consumed a separator made progress
     ('join_nullable_elem', [('start', S(JOIN(T(','), REP(T('a')), True), EOF_))]),
     ('gather_nullable_elem', [('start', S(GATHER(T(','), REP(T('a'))), OPT(T('b'))))]),
+    # a name / override bound to a group whose elements may match empty (closure zero times, empty join, empty pattern)
+    ('named_group_with_closure', [('start', S(N('x', GRP(S(T('a'), REP(T('b'))))), OPT(T('c'))))]),
+    ('override_group_with_join', [('start', S(OV(GRP(S(T('a'), JOIN(T(','), T('b')), P('c?')))), OPT(T('a'))))]),
 ]
 
 START_VARIANTS = [
